@@ -85,3 +85,21 @@ Theorem C02_globstar_whole_segments : forall prev b ts rest n,
                  C02Glob.DenG true (b && C02Glob.is_nil r && C02Glob.is_nil d) (C02Glob.PSeg ts :: rest) n'.
 Proof. exact C02Glob.globstar_whole_segments. Qed.
 Print Assumptions C02_globstar_whole_segments.
+
+(* ... the same with DOTMATCH on or off (`Proofs/C02GlobD.v`): under DOTMATCH a `**` matches a run that never steps onto the
+   start of a `.` or `..` segment (C02GlobD.gs_ok1), segments follow the DOTMATCH rules of C02Path *)
+From WC.Proofs Require C02GlobD.
+Theorem C02_globstar_path_language_dot : forall flags isb units endg,
+  (units <> [] \/ endg = true) -> Forall (fun u => C02GlobD.uwf u = true) units ->
+  has flags Mwcparse.PATHNAME = true -> has flags Mwcparse.GLOBSTAR = true -> has flags Mwcparse.GLOBSTARLONG = false ->
+  FlagFuns.is_unix_style linux flags = true -> has flags Mwcparse.EXTMATCH = false ->
+  has flags Mwcparse.NODOTDIR = false -> has flags Mwcparse.REALPATH = false ->
+  has flags Mwcparse.u_ANCHOR = false -> has flags Mwcparse.MATCHBASE = false ->
+  has flags Mwcparse.u_EXTMATCHBASE = false -> has flags Mwcparse.u_TRANSLATE = false ->
+  exists r,
+    wcparse linux flags isb (C02GlobD.punU units endg) =
+      inl (S_ "^(?s" ++ (if FlagFuns.get_case linux flags then [] else S_ "i") ++ S_ ":" ++ C02Path.xprint r ++ S_ ")$") /\
+    forall n, C02Path.nonl n ->
+      (C02Glob.Xb r true n [] <-> C02GlobD.DenGD (has flags Mwcparse.DOTMATCH) false true (C02GlobD.to_psegs units endg) n).
+Proof. exact C02GlobD.C02_globstar_path_language_dot. Qed.
+Print Assumptions C02_globstar_path_language_dot.
